@@ -2096,6 +2096,14 @@ func codecFieldSeq(info *types.Info, fd *ast.FuncDecl, reader bool) []string {
 			if s, ok := unparen(v.Fun).(*ast.SelectorExpr); ok {
 				add(s.X)
 			}
+			// a method value kept in a local (`readMetaData := share.MetaData.ReadFrom` … `readMetaData(r)`)
+			if id, ok := unparen(v.Fun).(*ast.Ident); ok {
+				if d := singleDefOf(info, fd, info.Uses[id]); d != nil {
+					if s, ok := unparen(d).(*ast.SelectorExpr); ok {
+						add(s.X)
+					}
+				}
+			}
 		case *ast.AssignStmt:
 			if reader {
 				for _, l := range v.Lhs {
